@@ -169,6 +169,11 @@ def run(ck: Checker):
                 d = cfg11.nodes[i].ast
                 if isinstance(d, ast.Assign) and len(d.targets) == 1 and isinstance(d.targets[0], ast.Name) and is_list(d.value):
                     continue
+                # `us, batch = [..], [..]`: the element at the position of the name
+                if isinstance(d, ast.Assign) and len(d.targets) == 1 and isinstance(d.targets[0], (ast.Tuple, ast.List)) and isinstance(d.value, (ast.Tuple, ast.List)) and len(d.targets[0].elts) == len(d.value.elts):
+                    pos = [j for j, t in enumerate(d.targets[0].elts) if is_name(t, yv.id)]
+                    if pos and is_list(d.value.elts[pos[0]]):
+                        continue
                 probs11.append(f'L{cfg11.nodes[i].lineno}: `{norm_text(d)[:60]}` binds `{yv.id}` to something that is not made as a list (unpacking `zip(*...)` gives tuples): call() receives a tuple')
         elif yv is not None and not is_list(yv):
             probs11.append(f'`{norm_text(yv)[:50]}` is not made as a list')
